@@ -113,6 +113,91 @@ def task_core_core(ctx):
     ctx.assume_note("shape: one pair of each kind O-C, O-H, N-H, C-H, H-H; all parameters, distances and (ss|ss) symbolic")
 
 
+def replay_pm6_core(model):
+    """real pair_nuclear_energy, PM6, one Si-O pair at 1.6 A and 2.9 A against the published formula (R in Angstrom)."""
+    import math
+    import torch
+    from seqm.seqm_functions.energy import pair_nuclear_energy
+    from seqm.seqm_functions.constants import Constants
+    import seqm.seqm_functions.constants as C
+
+    torch.set_default_dtype(torch.float64)
+    const = Constants()
+    rows, bad = [], False
+    x, al, rho = 0.5, 1.9, 1.2
+    for Rang in (1.6, 2.9):
+        rij = torch.tensor([Rang / C.a0])
+        alp = torch.zeros(20, 20)
+        chi = torch.zeros(20, 20)
+        alp[14, 8], chi[14, 8] = al, x
+        z = torch.zeros(2, 1)
+        got = float(pair_nuclear_energy(None, const, 1, torch.tensor([14]), torch.tensor([8]), torch.tensor([0]), torch.tensor([1]), rij, torch.tensor([rho]), torch.tensor([rho]), alp, chi, gam=torch.zeros(1),
+                                        method="PM6", parameters=(torch.zeros(2), z, z, z))[0])
+        ZA, ZB = float(const.tore[14]), float(const.tore[8])
+        gamma = C.ev / math.sqrt(float(rij) ** 2 + (2 * rho) ** 2)
+        want = ZA * ZB * gamma * (1 + 2 * x * math.exp(-al * (Rang + 0.0003 * Rang ** 6))) - ZA * ZB * gamma * 0.0007 * math.exp(-(Rang - 2.9) ** 2) + 1e-8 * ((14 ** (1 / 3) + 8 ** (1 / 3)) / Rang) ** 12
+        rows.append({"R_Angstrom": Rang, "computed_eV": got, "published_formula_eV": want, "difference_eV": got - want})
+        bad = bad or abs(got - want) > 1e-8
+    return {"reproduced": bad, "pair": "Si-O, x = 0.5, alpha = 1.9, rho0 = 1.2 bohr each, no Gaussians", "rows": rows}
+
+
+def task_core_core_pm6(ctx):
+    """O5 for PM6: pair_nuclear_energy(method='PM6') = the published PM6 core-core function (general pairs, the X-H form for
+    C/N/O-H, the extra C-C and Si-O terms, the unpolarisable-core term, the atoms' Gaussians), all lengths in Angstrom."""
+    from spec import nddo
+    from contracts.md_common import Obj
+    from contracts.es_common import tore_table
+    from contracts.C07_differentiability import _quiet
+
+    fn = ctx.under_contract("seqm.seqm_functions.energy:pair_nuclear_energy")
+    # pairs: C-C, O-C, Si-O, C-H, N-H, O-H, Cl-H (general X-H), H-H
+    Z = [6, 6, 8, 6, 14, 8, 6, 1, 7, 1, 8, 1, 17, 1, 1, 1]
+    idxi, idxj = list(range(0, 16, 2)), list(range(1, 16, 2))
+    ni = st.tensor([Z[i] for i in idxi])
+    nj = st.tensor([Z[j] for j in idxj])
+    tore = st.zeros(20)
+    num = st.zeros(20)
+    for z in set(Z):
+        tore.a[z] = real("tore%d" % z)
+        num.a[z] = real("num%d" % z)
+    const = Obj(tore=tore, atomic_num=num)
+    alpha = st.symbolic((16,), "alpha")
+    K, L, M = st.symbolic((16, 1), "K"), st.symbolic((16, 1), "L"), st.symbolic((16, 1), "M")
+    rij = st.symbolic((8,), "rij")
+    rho_i, rho_j = st.symbolic((8,), "rhoi"), st.symbolic((8,), "rhoj")
+    alp, chi = st.zeros(20, 20), st.zeros(20, 20)
+    for a, b in zip(idxi, idxj):
+        alp.a[Z[a], Z[b]] = real("alp_%d_%d" % (Z[a], Z[b]))
+        chi.a[Z[a], Z[b]] = real("chi_%d_%d" % (Z[a], Z[b]))
+
+    def thunk():
+        for z in set(Z):
+            assume(real("num%d" % z) > 0)
+        for k in range(8):
+            assume(rij.a[k] > 0)
+        return fn(None, const, 1, ni, nj, st.tensor(idxi), st.tensor(idxj), rij, rho_i, rho_j, alp, chi, gam=st.symbolic((8,), "gam"), method="PM6", parameters=(alpha, K, L, M))
+
+    ex = ctx.explore(thunk, constants={"a0": real("a0"), "ev": real("ev")}, name="pair_nuclear_energy PM6", extra_globals=None)
+    if len(ex.paths) != 1 or ex.paths[0].raised is not None:
+        ctx.error("paths", "%r %s" % ([p.raised for p in ex.paths], ex.paths[0].notes.get("traceback", "")[-700:] if ex.paths else ""))
+        return
+    En = ex.paths[0].value
+    expf = lambda z: Sym(E.fn("exp", E.node_of(z)))
+    rep = []
+    for k in range(8):
+        a, b = idxi[k], idxj[k]
+        ZA, ZB = real("tore%d" % Z[a]), real("tore%d" % Z[b])
+        R = rij.a[k] * real("a0")
+        gamma = real("ev") * Sym(E.powr((rij.a[k] * rij.a[k] + (rho_i.a[k] + rho_j.a[k]) ** 2).n, Fraction(-1, 2)))
+        cb = {z_: Sym(E.powr(real("num%d" % z_).n, Fraction(1, 3))) for z_ in (Z[a], Z[b])}
+        want = nddo.core_core_pm6(ZA, ZB, Z[a], Z[b], Z[a], Z[b], gamma, R, real("chi_%d_%d" % (Z[a], Z[b])), real("alp_%d_%d" % (Z[a], Z[b])),
+                                  [(K.a[a, 0], L.a[a, 0], M.a[a, 0])], [(K.a[b, 0], L.a[b, 0], M.a[b, 0])], expf, lambda n_: cb[n_])
+        ctx.prove_eq("PM6.pair[%d-%d]" % (Z[a], Z[b]), En.a[k], want,
+                     replay=(lambda mdl: (rep or rep.append(_quiet(replay_pm6_core)) or rep)[0]) if (Z[a], Z[b]) == (14, 8) else None,
+                     classify=lambda m_, r: "length-unit-of-the-Si-O-term" if r and r.get("reproduced") else "other")
+    ctx.assume_note("shape: one pair of each kind (C-C, O-C, Si-O, C-H, N-H, O-H, Cl-H, H-H), one Gaussian per atom; math.e**x read as exp(x), x**(1/3) as the cube root; atomic numbers as positive symbols")
+
+
 def fock_inputs(padded=False):
     from contracts.es_common import batch_description
 
@@ -319,5 +404,5 @@ def task_fock_uhf(ctx):
     ctx.canary_eq("exchange-uses-same-spin", F.a[0, 0, 1, 2], F.a[0, 1, 1, 2])
 
 
-TASKS_QUICK = ["local_frame", "core_core", "fock", "fock_uhf", "hcore_assembly"]
+TASKS_QUICK = ["core_core_pm6", "local_frame", "core_core", "fock", "fock_uhf", "hcore_assembly"]
 TASKS_THOROUGH = TASKS_QUICK
